@@ -92,6 +92,23 @@ CHECKS["C05"] = {
     "technique": TECH + "storage-map agreement, armed single-fact bounds proofs under a struct invariant, def-guard-use divisor discipline, symbolic transpose/recurrence identities",
 }
 
+CHECKS["C06"] = {
+    "text": "For every shape and pattern: all five traversals of the structure have the one compressed-column walk shape with val and row_index co-indexed; "
+            "the row_index value is used only in row positions and the walk's column only in column positions; the constructors establish the length invariant "
+            "(paired pushes per drained triplet, col_start of cols+1); col_start is the exclusive prefix sum of the per-column counts; col_index expands the gaps; "
+            "get and insert share guards and membership test; insert overwrites the matching entry or rebuilds with the same shape; transpose allocates (cols, rows, nnz) and scatters consistently.",
+    "design_ref": "DESIGN.md §3 C06",
+    "note": "from_vecs performs no validation (the property quantifies over well-formed raw arrays). Order-independence and equality with a reference model over all histories are not decided statically.",
+    "technique": TECH + "walk-shape/co-indexing/role analysis over the three parallel arrays, paired-push and prefix-sum data-flow patterns, sibling agreement of get/insert",
+}
+CHECKS["C07"] = {
+    "text": "For every rectangular shape: multiply scatters val[k]*x[j] into result[row_index[k]] under guard cols=len(x) with a rows-long result; transpose_multiply "
+            "gathers val[k]*x[row_index[k]] into result[j] under guard rows=len(x) with a cols-long result; the explicit transpose has the C06 shape; scale covers every stored value.",
+    "design_ref": "DESIGN.md §3 C07",
+    "note": "Mixing row/column roles is a definite contradiction for every non-square shape (what the all-ones 5x5 test cannot see). Numerical equality with the dense product is not decided as a value statement.",
+    "technique": TECH + "role-typed scatter/gather patterns on the compressed-column walk, guard/result-length agreement",
+}
+
 NOT_APPLICABLE = {
 }
 for _i in range(1, 21):
